@@ -268,8 +268,8 @@ def sparse_cases(rng, n_per_op):
 
 def vec_cases(rng, n):
     out = []
-    def add(op, args, rtype, quals=()):
-        out.append(dict(case=[3, op] + args, rtype=rtype, site=VECOP[op], quals=list(quals), size=sum(len(a) if isinstance(a, list) else 0 for a in args), kind='vec', op=op, st=-1))
+    def add(op, args, rtype, quals=(), site=None):
+        out.append(dict(case=[3, op] + args, rtype=rtype, site=site or VECOP[op], quals=list(quals), size=sum(len(a) if isinstance(a, list) else 0 for a in args), kind='vec', op=op, st=-1))
     def ovec(k, na_p=.2): return [None if rng.random() < na_p else rnd_entry(rng, .1) for _ in range(k)]
     for it in range(n):
         k = rng.choice([0, 1, 2, 3, 5, 8])
@@ -284,9 +284,11 @@ def vec_cases(rng, n):
         add(6, [V(v), V(w)], 'Q'); add(9, [V(v), V(w)], 'Q')
         for kk in range(4):
             w2 = rnd_vec(rng, k if rng.random() < .9 else k + 1, nonzero=(kk == 3))
-            add(7, [kk, V(v), V(w2)], 'V', ['op%d' % kk]); add(10, [kk, V(v), V(w2)], 'V', ['op%d' % kk])
+            small = ['divisor-below-one'] if (kk == 3 and len(w2) == len(v) and any(abs(x) < 1 for x in w2)) else []
+            add(7, [kk, V(v), V(w2)], 'V', small, site='VectorNumT::' + ['add', 'subtract', 'multiply', 'divide'][kk])
+            add(10, [kk, V(v), V(w2)], 'V', [], site='VH::' + ['add', 'subtract', 'multiplyInPlace', 'divideInPlace'][kk])
         ov = ovec(k)
-        for kk in range(4): add(8, [kk, [dy(x) for x in ov]], 'OQ' if kk < 3 else 'Q', ['op%d' % kk])
+        for kk in range(4): add(8, [kk, [dy(x) for x in ov]], 'OQ' if kk < 3 else 'Q', [], site='VH::' + ['maximum', 'minimum', 'mean', 'cumul'][kk])
         add(11, [V(v), 1 if rng.random() < .5 else 0, 1 if (rng.random() < .5 and k > 0) else 0], 'V')
         add(12, [rng.randint(0, 6), rng.randint(-3, 3), rng.randint(-2, 3)], 'IV')
         add(13, [dy(Fraction(rng.randint(-4, 4), 2)), dy(Fraction(rng.randint(0, 12), 2)), dy(rng.choice([Fraction(1, 2), Fraction(1), Fraction(3, 4)])), dy(rng.choice([1, 2, 4]))], 'V')
@@ -549,6 +551,9 @@ def run(ctx):
                     drift['model-drift:' + key] = (g['size'], '%s outside the mathematical domain: impl %s, model %s' % (site, show(i1), show(m)), replay)
         else:
             if same(i1, s):
+                if m[0] == 'UB':
+                    # the model predicts a contract violation / out-of-bounds access that stayed silent on this run
+                    ctx.cov.setdefault('ub_predicted_silent', {}); ctx.cov['ub_predicted_silent'][key] = ctx.cov['ub_predicted_silent'].get(key, 0) + 1
                 if not (m[0] == 'UB' or same(m, i1)):
                     if g['size'] < drift.get('model-drift:' + key, (1 << 60,))[0]:
                         drift['model-drift:' + key] = (g['size'], '%s: impl agrees with the mathematical result but the model returns %s' % (site, show(m)), replay)
